@@ -12,8 +12,8 @@ for a key that may be empty, and the root.
 
 What lies between the two steps in `prepare` (query-string extraction, signature check, custom
 route, the POST-multipart special case) neither changes the `S3Path` nor depends on the addressing
-style except through `vh_bucket`/`decoded_uri_path` in the signature check (property C10); it is not
-part of this composition.
+style except through `vh_bucket`/`decoded_uri_path` in the signature check (property C10); it is
+modelled in `S3V/Model/Prepare.lean` and composed with this file in `S3V/Props/C01Prepare.lean`.
 -/
 namespace S3V.RouteCompose
 open S3V S3V.Net S3V.Host S3V.Path S3V.PathSpec S3V.Gen S3V.Route S3V.RouteSpec
